@@ -207,14 +207,11 @@ pub fn disassemble(bytes: &[u8]) -> Result<Vec<DynOpcode>> {
 
     // Solc has generated valid code that ends with an incomplete push, so we have
     // to handle it by treating the unterminated push and all the subsequent bytes
-    // as invalid
-    if !push_bytes.is_empty() && push_bytes.len() != push_size as usize {
+    // as invalid. A push is still open here exactly when `push_size` is non-zero,
+    // which includes the case where none of its immediate bytes are present.
+    if push_size != 0 {
         add_op(ops, control::Invalid::new(last_push));
         push_bytes.iter().for_each(|b| add_op(ops, control::Invalid::new(*b)));
-    } else if push_size != 0 {
-        let opcode = mem::PushN::new(push_size, push_bytes.clone())
-            .map_err(|e| e.locate(last_push_start))?;
-        add_op(ops, opcode);
     }
 
     Ok(opcodes)
